@@ -11,10 +11,18 @@ package selector
 //@   assigns nothing
 //@ interface Selector.Explore(n, ps) (s, err)
 //@   assigns nothing
+// Deciding and matching are deterministic functions of the selector and the node's value (the matched
+// node of a subset matcher is a new object each time: only its nil-ness and its value are named).
+//@ pure func seldecides(s Selector, n datamodel.Node) bool
+//@ pure func selmatchnil(s Selector, n datamodel.Node) bool
+//@ pure func selmatchval(s Selector, n datamodel.Node) datamodel.Val
+//@ pure func selmatchfails(s Selector, n datamodel.Node) bool
 //@ interface Selector.Decide(n) (r)
 //@   assigns nothing
+//@   ensures r == seldecides(recv, n)
 //@ interface Selector.Match(n) (m, err)
 //@   assigns nothing
+//@   ensures (m == nil) == selmatchnil(recv, n) && (m != nil ==> m.val == selmatchval(recv, n)) && (err != nil) == selmatchfails(recv, n)
 
 // ---- subset matcher bounds (from the documentation of Slice: [From,To), negative = from the end,
 //      To clipped to the length, no match when From is beyond the end or beyond To) ----
@@ -92,11 +100,36 @@ package selector
 //@   loop 0 invariant 0 - 1 <= rangeindex && rangeindex < len(s.Members)
 //@   loop 0 invariant forall i mathint :: 0 <= i && i < len(s.Members) ==> s.Members[i] != nil
 //@   loop 0 assigns foreign
+// Union: the first member (in stated order) that matches gives the match; a member that fails without
+// matching stops the search with its error; a member that neither matches nor fails is passed over.
+// (memberat/membercount name the member list of the selector value: axioms cannot read the heap.)
+//@ pure func memberat(s ExploreUnion, k mathint) Selector
+//@ pure func membercount(s ExploreUnion) mathint
+//@ pure func umnil(s ExploreUnion, n datamodel.Node, k mathint) bool
+//@ pure func umval(s ExploreUnion, n datamodel.Node, k mathint) datamodel.Val
+//@ pure func umfails(s ExploreUnion, n datamodel.Node, k mathint) bool
+//@ pure func udecides(s ExploreUnion, n datamodel.Node, k mathint) bool
+//@ axiom um_end: forall s ExploreUnion, n datamodel.Node, k mathint :: k >= membercount(s) ==> umnil(s, n, k) && !umfails(s, n, k) && !udecides(s, n, k)
+//@ axiom um_hit: forall s ExploreUnion, n datamodel.Node, k mathint :: 0 <= k && k < membercount(s) && !selmatchnil(memberat(s, k), n) ==> !umnil(s, n, k) && umval(s, n, k) == selmatchval(memberat(s, k), n) && !umfails(s, n, k)
+//@ axiom um_err: forall s ExploreUnion, n datamodel.Node, k mathint :: 0 <= k && k < membercount(s) && selmatchnil(memberat(s, k), n) && selmatchfails(memberat(s, k), n) ==> umnil(s, n, k) && umfails(s, n, k)
+//@ axiom um_skip: forall s ExploreUnion, n datamodel.Node, k mathint :: 0 <= k && k < membercount(s) && selmatchnil(memberat(s, k), n) && !selmatchfails(memberat(s, k), n) ==> umnil(s, n, k) == umnil(s, n, k + 1) && umval(s, n, k) == umval(s, n, k + 1) && umfails(s, n, k) == umfails(s, n, k + 1)
+//@ axiom ud_step: forall s ExploreUnion, n datamodel.Node, k mathint :: 0 <= k && k < membercount(s) ==> udecides(s, n, k) == (seldecides(memberat(s, k), n) || udecides(s, n, k + 1))
 //@ func (ExploreUnion).Match(n) (r, err)
 //@   requires forall i mathint :: 0 <= i && i < len(s.Members) ==> s.Members[i] != nil
+//@   requires membercount(s) == len(s.Members) && (forall i mathint :: 0 <= i && i < len(s.Members) ==> memberat(s, i) == s.Members[i])
+//@   ensures[C07] (r == nil) == umnil(s, n, 0) && (r != nil ==> r.val == umval(s, n, 0)) && (err != nil) == umfails(s, n, 0)
 //@   loop 0 invariant 0 - 1 <= rangeindex && rangeindex < len(s.Members)
-//@   loop 0 invariant forall i mathint :: 0 <= i && i < len(s.Members) ==> s.Members[i] != nil
+//@   loop 0 invariant forall i mathint :: 0 <= i && i < len(s.Members) ==> s.Members[i] != nil && memberat(s, i) == s.Members[i]
+//@   loop 0 invariant umnil(s, n, 0) == umnil(s, n, rangeindex + 1) && umval(s, n, 0) == umval(s, n, rangeindex + 1) && umfails(s, n, 0) == umfails(s, n, rangeindex + 1)
 //@   loop 0 assigns foreign
+//@ func (ExploreUnion).Decide(n) (r)
+//@   requires forall i mathint :: 0 <= i && i < len(s.Members) ==> s.Members[i] != nil
+//@   requires membercount(s) == len(s.Members) && (forall i mathint :: 0 <= i && i < len(s.Members) ==> memberat(s, i) == s.Members[i])
+//@   assigns[C20] nothing
+//@   ensures[C07] r == udecides(s, n, 0)
+//@   loop 0 invariant 0 - 1 <= rangeindex && rangeindex < len(s.Members)
+//@   loop 0 invariant forall i mathint :: 0 <= i && i < len(s.Members) ==> s.Members[i] != nil && memberat(s, i) == s.Members[i]
+//@   loop 0 invariant udecides(s, n, 0) == udecides(s, n, rangeindex + 1)
 //@ func (ExploreUnion).Interests() (r)
 //@   requires forall i mathint :: 0 <= i && i < len(s.Members) ==> s.Members[i] != nil
 //@   loop 0 invariant 0 - 1 <= rangeindex && rangeindex < len(s.Members)
